@@ -513,6 +513,15 @@ def run_big(case):
         chk("get-last", n - 1, d.get(names[-1].upper()))
         chk("contains-lower", True, names[n // 2].lower() in d)
         chk("sorted_keys", sorted(ref), d.sorted_keys() if cname != "Event" else sorted(d.sorted_keys()))
+        # a value that is not equal to itself, the very same object on both sides: equal, as for dict
+        nan = float("nan")
+        d["x-nan"] = nan
+        twin = d.copy()
+        chk("equal:shared-NaN-object", ({"a": nan} == {"a": nan}, False), (d == twin, d != twin))
+        other_nan = cls(d)
+        other_nan["X-NAN"] = float("nan")
+        chk("unequal:distinct-NaN-objects", (False, True), (d == other_nan, d != other_nan))
+        del d["x-nan"]
         chk("pop-first", 0, d.pop(names[0]))
         chk("len-after-pop", n - 1, len(d))
     return {"state": ("big", cname, n, not fails), "trans": 20, "nontrivial": n > 1, "outcome": "big-ok" if not fails else "FAIL", "fails": fails}
